@@ -70,7 +70,11 @@ fn layer_toml(c: &LayerCase) -> String {
         let named: Vec<String> = NAMED_ONLY.iter().filter(|(nq, _, _)| *nq == q).map(|(_, n, r)| format!("{{ names = [\"{n}\"], symbols = [], ratio = {r:?} }}")).collect();
         s.push_str(&format!("[[quantity]]\nquantity = \"{q}\"\n[quantity.units]\nunspecified = [ {{ names = [\"{name}\"], symbols = [\"{sym}\"], ratio = {size:?} }}, {} ]\n", named.join(", ")));
     }
-    s.push_str("[[quantity]]\nquantity = \"temperature\"\n[quantity.units]\nmetric = [ { names = [\"degree\"], symbols = [\"deg\"], ratio = 1, difference = 273.15, expand_si = true } ]\n");
+    s.push_str("[[quantity]]\nquantity = \"temperature\"\n[quantity.units]\nmetric = [ { names = [\"degree\"], symbols = [\"deg\"], ratio = 1, difference = 273.15, expand_si = true }, { names = [\"kelvin\"], symbols = [\"K\"], ratio = 1 } ]\n");
+    // the layer may name other best units for volume: the later designation wins
+    if c.by_name {
+        s.push_str("[[quantity]]\nquantity = \"volume\"\nbest = { metric = [\"dl\", \"l\"], imperial = [\"fl oz\", \"gal\"] }\n");
+    }
     s
 }
 
@@ -124,6 +128,9 @@ fn entries(c: &LayerCase) -> Vec<Entry> {
         out.push(Entry { key: format!("{ps}deg"), quantity: Temperature, size: f, system: Some(System::Metric), offset: 273.15 / f });
         out.push(Entry { key: format!("{pn}degree"), quantity: Temperature, size: f, system: Some(System::Metric), offset: 273.15 / f });
     }
+    // a temperature unit without offset next to the ones with: 0 C = 273.15 K
+    out.push(Entry { key: "K".into(), quantity: Temperature, size: 1.0, system: Some(System::Metric), offset: 0.0 });
+    out.push(Entry { key: "kelvin".into(), quantity: Temperature, size: 1.0, system: Some(System::Metric), offset: 0.0 });
     for k in ["oz", "lb", "cup", "tsp", "tbsp", "gal", "in", "ft", "C", "F"] {
         let u = BUNDLED.find_unit(k).expect("bundled imperial unit");
         out.push(Entry { key: k.to_string(), quantity: u.physical_quantity, size: u.ratio, system: u.system, offset: u.difference });
@@ -169,6 +176,13 @@ pub fn check(c: &LayerCase, st: &mut Stats) -> Verdict {
             "`{}` is defined as {} x base, offset {} ({:?}, {}) but the layers imply {} x base, offset {} ({:?}); {}",
             en.key, u.ratio, u.difference, u.system, u.physical_quantity, en.size, en.offset, en.system, ctx()
         );
+    }
+    if c.by_name {
+        for (sys, want) in [(System::Metric, ["dl", "l"]), (System::Imperial, ["fl oz", "gal"])] {
+            let got: Vec<String> = conv.best_units(PhysicalQuantity::Volume, Some(sys)).iter().map(|u| u.symbol().to_string()).collect();
+            vensure!(got == want, "c09.layer-best-units", "the layer designates {want:?} as the best {sys:?} volume units but the converter lists {got:?}; {}", ctx());
+        }
+        st.class("best units designated again by the layer");
     }
     let expected_default = if c.default_imperial == Some(true) { System::Imperial } else { System::Metric };
     vensure!(conv.default_system() == expected_default, "c09.layer-default-system", "default system {:?}, the layers say {expected_default:?}; {}", conv.default_system(), ctx());
